@@ -23,6 +23,11 @@
       pubd/rrdp.rs:1337-1400 with the jail = the publisher's stored base URI), reply signed with
       the repository's key ([create_response], access.rs:238-247).
 
+    - the administrative identity changes: [CaManager::ca_child_update] (manager.rs:919-972; ID certificate,
+      resources, or both in one request - the suspend and class-name-mapping parts are left out) and
+      [RepositoryManager::create_publisher] with the jail the handle determines
+      ([publisher_rsync_base], pubd/access.rs:413-431).
+
     Outside the model: the embedded trust anchor as parent ([rfc6492] refuses "ta", 1005-1009),
     resource-class name mappings of imported children ([rcn_map], child.rs:99-125; C03/F03a),
     certificate validity / the one-day expiry test of unsuspend (assumed not to fire), CSR
@@ -363,6 +368,36 @@ Definition set_child_id (c : handle) (k : key) (st : parent) : parent :=
                else bump (with_children st (aupd c (set_id k) (p_children st)))
   end.
 
+(** ** [CaManager::ca_child_update] (manager.rs:919-972): ONE administrative request that may carry a new ID
+    certificate, a new resource set, or both. The parts are applied one after the other, each as its own
+    command, in the order ID certificate, resources (then suspension and the class-name mapping, which the
+    scenario leaves absent); the first command that fails ends the request with its error - whatever was applied
+    before stays applied. So after an update that carries an ID certificate for an existing child the registered
+    key IS the new key, whatever else the update carries and whether or not a later part fails. *)
+Record child_upd := mkUpd { u_id : option key; u_res : option N }.
+
+(** [CertAuth::all_resources] (certauth.rs:815-823): the union over the classes that have a current key. *)
+Definition all_res (st : parent) : N :=
+  fold_right (fun '(_, rc) acc => match rc_res rc with Some r => N.lor r acc | None => acc end) 0 (p_classes st).
+Definition set_ent (r : N) (ch : child) : child :=
+  mkChild (ch_id ch) r (ch_used ch) (ch_susp ch) (ch_last ch).
+(** [process_child_update_resources] (certauth.rs:1225-1268, apply 445-449): empty set, resources the CA does
+    not hold, unknown child: error (stored); same set: no-op; otherwise ONLY the entitlement changes - nothing is
+    revoked or re-issued. [true] = the command succeeded. *)
+Definition set_child_res (c : handle) (r : N) (st : parent) : parent * bool :=
+  if r =? 0 then (bump st, false)
+  else if negb (subset r (all_res st)) then (bump st, false)
+  else match aget c (p_children st) with
+       | None => (bump st, false)
+       | Some ch => if ch_ent ch =? r then (st, true)
+                    else (bump (with_children st (aupd c (set_ent r) (p_children st))), true)
+       end.
+Definition child_update (c : handle) (u : child_upd) (st : parent) : parent * bool :=
+  let st1 := match u_id u with Some k => set_child_id c k st | None => st end in
+  let ok1 := match u_id u with Some _ => amem c (p_children st) | None => true end in
+  if ok1 then match u_res u with Some r => set_child_res c r st1 | None => (st1, true) end
+  else (st1, false).
+
 (** * 2. Publication server *)
 
 Definition uri : Type := list N.                               (* path segments below the server's rsync base *)
@@ -463,6 +498,39 @@ Definition add_publisher (h : handle) (k : key) (jail : uri) (rp : repo) : repo 
 Definition remove_publisher (h : handle) (rp : repo) : repo :=
   mkRepo (r_id rp) (aremove h (r_pubs rp)) (r_ver rp).
 
+(** The jail a publisher is given when it is added ([RepositoryAccess::publisher_rsync_base],
+    pubd/access.rs:413-431, called from [RepositoryManager::create_publisher]): the server's rsync base itself
+    for the handle that is EXACTLY "ta", [<rsync base><handle>/] for every other handle - whatever the handle
+    starts with. Handles and URI path segments share one numbering (the harness interns both as plain names, "ta"
+    first), so the directory named like handle [h] is the segment [h]. *)
+Definition ta_name : handle := 1.
+Definition jail_of (h : handle) : uri := if h =? ta_name then [] else [h].
+(** [RepositoryManager::create_publisher] (pubd/manager.rs:321-330): a duplicate handle is an error
+    ([process_add_publisher], access.rs:372-388) and nothing changes; otherwise the publisher is stored with the
+    jail above and the content store records it as well (one more content revision, content.rs:136-147). *)
+Definition create_publisher (h : handle) (k : key) (rp : repo) : repo * bool :=
+  if amem h (r_pubs rp) then (rp, false)
+  else (mkRepo (r_id rp) (ainsert h (mkPub k (jail_of h) []) (r_pubs rp)) (r_ver rp + 1), true).
+(** Every stored jail is the one the handle determines. *)
+Definition jails_wf (rp : repo) : Prop :=
+  forall h pb, aget h (r_pubs rp) = Some pb -> pb_jail pb = jail_of h.
+
+(** Histories of the publication server: messages interleaved with publishers being added and removed. *)
+Inductive rinput :=
+| RInMsg (m : msg query)
+| RInCreate (h : handle) (k : key)
+| RInRemove (h : handle).
+Section RHistory.
+  Variable validate : validator query.
+  Definition rstep (rp : repo) (i : rinput) : repo :=
+    match i with
+    | RInMsg m => fst (rfc8181 validate rp m)
+    | RInCreate h k => fst (create_publisher h k rp)
+    | RInRemove h => remove_publisher h rp
+    end.
+  Definition rrun (rp : repo) (ins : list rinput) : repo := fold_left rstep ins rp.
+End RHistory.
+
 (** * 3. Specification vocabulary (used by the statements in IdentProofs.v / props/C12.v) *)
 
 Definition opt_rel {A} (R : A -> A -> Prop) (a b : option A) : Prop :=
@@ -514,7 +582,8 @@ Definition confined8181 (h : handle) (rp0 rp : repo) : Prop :=
 Inductive input :=
 | InMsg (ua : N) (m : msg req)
 | InSetParentId (k : key)
-| InSetChildId (c : handle) (k : key).
+| InSetChildId (c : handle) (k : key)
+| InChildUpdate (c : handle) (u : child_upd).
 
 Section History.
   Variable validate : validator req.
@@ -523,6 +592,7 @@ Section History.
     | InMsg ua m => let (st', o) := rfc6492 validate st ua m in (st', Some o)
     | InSetParentId k => (set_parent_id k st, None)
     | InSetChildId c k => (set_child_id c k st, None)
+    | InChildUpdate c u => (fst (child_update c u st), None)
     end.
   (** The trace: state before each input, the input, what came out. *)
   Fixpoint run (st : parent) (ins : list input) : list (parent * input * option (outcome reply)) :=
